@@ -11,4 +11,5 @@ def check(ctx, rep):
     dar.da_rule(ctx, rep, ['parso/cache.py'])
     cache.cache_6_7(ctx, rep)
     cache.cache_8(ctx, rep)      # no memory-mapped cache file: truncation by a concurrent writer would be SIGBUS, not an exception
+    cache.cache_9_10(ctx, rep)   # entries are pickled verbatim; the save does not depend on the cache file that is already there
     rep.note('Not decided: "returns the tree of the current content"; the in-use clause of clean-up (atime based).')
